@@ -105,6 +105,7 @@ func c12call(c *an.Ctx) {
 		c.FnsAnalysed[f.Name] = true
 		bad := map[token.Pos]string{}
 		badFacts := map[token.Pos][]string{}
+		pendBad := map[token.Pos]bool{} // uses of a function value that was not compared with nil
 		isCall := map[*ast.CallExpr]bool{}
 		for _, s := range calls {
 			isCall[s] = true
@@ -112,6 +113,59 @@ func c12call(c *an.Ctx) {
 		isAssert := map[*ast.TypeAssertExpr]bool{}
 		for _, s := range asserts {
 			isAssert[s] = true
+		}
+		// knownNonNil: the reflect.Value with key ck is known not to be a nil function here (register kept from the
+		// test on, or IsNil() decided false — if need be under "its kind is Func", for `kind is Func && IsNil()` tests)
+		knownNonNil := func(x *an.Explorer, ck string, st *an.State) bool {
+			if st.Get("nn:"+ck) != "" {
+				return true
+			}
+			st2 := st.Clone()
+			for _, kc := range kindCalls {
+				if k, ok := x.Key(an.Receiver(kc)); ok && k == ck {
+					x.SetEq(kc, funcKind, st2)
+				}
+			}
+			for _, pc := range preds {
+				if pcall, ok := pc.(*ast.CallExpr); ok && an.CalleeName(info, pcall) == "(reflect.Value).IsNil" {
+					if k, ok := x.Key(an.Receiver(pcall)); ok && k == ck {
+						if v, known := x.Truth(pcall, st); known && !v {
+							return true
+						}
+						if v, known := x.Truth(pcall, st2); known && !v {
+							return true
+						}
+					}
+				}
+			}
+			return false
+		}
+		// kindNotFunc: the kind of the value with key ck is known not to be Func on this path — such a path exists
+		// only because a nil test is written as `kind is Func && IsNil()`; that the kind is Func where the value is
+		// called is established separately (by the function or its callers)
+		kindNotFunc := func(x *an.Explorer, ck string, st *an.State) bool {
+			for _, pc := range preds {
+				b, ok := pc.(*ast.BinaryExpr)
+				if !ok {
+					continue
+				}
+				for _, pr := range [][2]ast.Expr{{b.X, b.Y}, {b.Y, b.X}} {
+					kc, isCall := an.Unparen(pr[0]).(*ast.CallExpr)
+					if !isCall || an.CalleeName(info, kc) != "(reflect.Value).Kind" {
+						continue
+					}
+					tv, has := info.Types[pr[1]]
+					if !has || tv.Value == nil || tv.Value.ExactString() != funcKind {
+						continue
+					}
+					if k, ok := x.Key(an.Receiver(kc)); ok && k == ck {
+						if t, known := x.Truth(b, st); known && t != (b.Op == token.EQL) {
+							return true
+						}
+					}
+				}
+			}
+			return false
 		}
 		// typeKey: the key under which facts about v.Type() are recorded — "<v>.Type()", or the local that holds it
 		typeKeys := func(x *an.Explorer, vk string, st *an.State) map[string]bool {
@@ -151,6 +205,14 @@ func c12call(c *an.Ctx) {
 			// whether a function value is nil is taken to be stable while its arguments are evaluated: the fact is
 			// kept in a register from the test on (facts about IsNil() die at the next impure call)
 			Branch: func(x *an.Explorer, cond ast.Expr, val bool, st *an.State) {
+				for rk, why := range st.Regs {
+					if strings.HasPrefix(rk, "pendfn:") && why != "" {
+						lk := strings.TrimPrefix(rk, "pendfn:")
+						if an.FactIs(st, an.PlainKey(lk)+" == nil", false) {
+							st.Set(rk, "")
+						}
+					}
+				}
 				for _, pc := range preds {
 					pcall, ok := pc.(*ast.CallExpr)
 					if !ok || an.CalleeName(info, pcall) != "(reflect.Value).IsNil" {
@@ -172,6 +234,32 @@ func c12call(c *an.Ctx) {
 				}
 			},
 			Call: func(x *an.Explorer, call *ast.CallExpr, st *an.State) {
+				// a function value taken from reflection that is still to be compared with nil
+				for rk, why := range st.Regs {
+					if !strings.HasPrefix(rk, "pendfn:") || why == "" {
+						continue
+					}
+					lk := strings.TrimPrefix(rk, "pendfn:")
+					if fk, ok := x.Key(call.Fun); ok && fk == lk {
+						if _, dup := bad[call.Pos()]; !dup {
+							bad[call.Pos()] = why
+							badFacts[call.Pos()] = an.Facts(st)
+							pendBad[call.Pos()] = true
+						}
+					}
+					for i, a := range call.Args {
+						if ak, ok := x.Key(a); ok && ak == lk {
+							g := p.FnByObj[an.Callee(info, call)]
+							if g != nil && c12paramNilChecked(p, g, i) {
+								st.Set(rk, "")
+							} else if _, dup := bad[call.Pos()]; !dup {
+								bad[call.Pos()] = why
+								badFacts[call.Pos()] = an.Facts(st)
+								pendBad[call.Pos()] = true
+							}
+						}
+					}
+				}
 				if !isCall[call] {
 					return
 				}
@@ -213,30 +301,8 @@ func c12call(c *an.Ctx) {
 						}
 					}
 				}
-				if !nonNil {
-					// a path on which the kind is known *not* to be Func exists only because the nil test is written as
-					// `kind is Func && IsNil()`; the callers rule it out (checked below)
-					for _, pc := range preds {
-						b, ok := pc.(*ast.BinaryExpr)
-						if !ok {
-							continue
-						}
-						for _, pr := range [][2]ast.Expr{{b.X, b.Y}, {b.Y, b.X}} {
-							kc, isCall := an.Unparen(pr[0]).(*ast.CallExpr)
-							if !isCall || an.CalleeName(info, kc) != "(reflect.Value).Kind" {
-								continue
-							}
-							tv, has := info.Types[pr[1]]
-							if !has || tv.Value == nil || tv.Value.ExactString() != funcKind {
-								continue
-							}
-							if k, ok := x.Key(an.Receiver(kc)); ok && k == ck {
-								if t, known := x.Truth(b, st); known && t != (b.Op == token.EQL) {
-									nonNil = true
-								}
-							}
-						}
-					}
+				if !nonNil && kindNotFunc(x, ck, st) {
+					nonNil = true
 				}
 				if !nonNil {
 					bad[call.Pos()] = "the called value " + an.Str(callee) + " is not known to be a non-nil function"
@@ -300,6 +366,56 @@ func c12call(c *an.Ctx) {
 					if len(tvars) == 0 {
 						fail("no reflect.Type of " + tv.Type.String() + " is declared to test against")
 						return true
+					}
+					// a function type: the value obtained is called (at once, or later through where it is stored), so it
+					// must not be a nil function
+					if _, isFunc := tv.Type.Underlying().(*types.Signature); isFunc {
+						base := an.Unparen(v)
+						if cc, ok := base.(*ast.CallExpr); ok && an.CalleeName(info, cc) == "(reflect.Value).Convert" {
+							base = an.Unparen(an.Receiver(cc))
+						}
+						bk, ok := x.Key(base)
+						if !ok || !(knownNonNil(x, bk, st) || kindNotFunc(x, bk, st)) {
+							why := an.Str(base) + " is not known to be a non-nil function where it is taken as a " + tv.Type.String() + " (calling it dereferences nil)"
+							// … unless every caller tested it (base is a parameter) …
+							if ok && c12atCallers(c, f, base, 0, func(cx *an.Explorer, g *an.Fn, arg ast.Expr, cst *an.State) bool {
+								ak, ok := cx.Key(arg)
+								if !ok {
+									return false
+								}
+								found := false
+								an.InspectOwn(g, func(m ast.Node) bool {
+									if pc, isCall := m.(*ast.CallExpr); isCall && !found && an.CalleeName(g.Info(), pc) == "(reflect.Value).IsNil" {
+										if k, ok := cx.Key(an.Receiver(pc)); ok && k == ak {
+											if t, known := cx.Truth(pc, cst); known && !t {
+												found = true
+											}
+										}
+									}
+									return !found
+								})
+								return found
+							}, "not tested by the callers") == "" {
+								return true
+							}
+							// … or the function value itself is compared with nil before anything else is done with it
+							switch where := n.(type) {
+							case *ast.AssignStmt:
+								for i, r := range where.Rhs {
+									if an.Unparen(r) == ast.Expr(ta) && i < len(where.Lhs) {
+										if lk, ok := x.Key(where.Lhs[i]); ok {
+											st.Set("pendfn:"+lk, why)
+											return true
+										}
+									}
+								}
+							}
+							if arg, g, idx := c12argOf(p, info, n, ta); arg && g != nil && c12paramNilChecked(p, g, idx) {
+								return true
+							}
+							fail(why)
+							return true
+						}
 					}
 					// v is W.Convert(tVar)
 					if cc, ok := an.Unparen(v).(*ast.CallExpr); ok && an.CalleeName(info, cc) == "(reflect.Value).Convert" && len(cc.Args) == 1 && isTypeVar(cc.Args[0]) {
@@ -374,6 +490,18 @@ func c12call(c *an.Ctx) {
 			} else {
 				c.OK("C12.call", key, s.Pos(), "the called value is known to be a non-nil function")
 			}
+		}
+		var pendPos []token.Pos
+		for pos := range pendBad {
+			pendPos = append(pendPos, pos)
+		}
+		sort.Slice(pendPos, func(i, j int) bool { return pendPos[i] < pendPos[j] })
+		for i, pos := range pendPos {
+			key := f.Name + "/uses-unchecked-function"
+			if i > 0 {
+				key += "#" + itoa(i+1)
+			}
+			c.Bad("C12.iface", key, pos, badFacts[pos], "%s: %s", f.Name, bad[pos])
 		}
 		sort.Slice(asserts, func(i, j int) bool { return asserts[i].Pos() < asserts[j].Pos() })
 		count := map[string]int{}
@@ -494,6 +622,11 @@ func c12atCallers(c *an.Ctx, f *an.Fn, e ast.Expr, depth int, holds func(x *an.E
 	if !isParam || owner.Obj == nil {
 		return why
 	}
+	// (a new helper is spliced into its callers: its calls are never seen as calls, and what is known about the
+	// argument is known about the parameter in place — nothing to establish here)
+	if p.IsNewHelper(owner.Root()) {
+		return why
+	}
 	sites := p.AllCalls(an.FuncName(owner.Obj))
 	if len(sites) == 0 {
 		return why
@@ -503,10 +636,14 @@ func c12atCallers(c *an.Ctx, f *an.Fn, e ast.Expr, depth int, holds func(x *an.E
 			return why
 		}
 		arg := s.Call.Args[idx]
-		okSite := true
+		okSite, reached := true, false
 		site := s
 		x := p.NewExplorer(s.Fn, an.Hooks{Call: func(x *an.Explorer, call *ast.CallExpr, st *an.State) {
-			if call != site.Call || !okSite {
+			if call != site.Call {
+				return
+			}
+			reached = true
+			if !okSite {
 				return
 			}
 			if holds(x, site.Fn, arg, st) {
@@ -518,9 +655,74 @@ func c12atCallers(c *an.Ctx, f *an.Fn, e ast.Expr, depth int, holds func(x *an.E
 		}})
 		x.Run(nil)
 		c.States += x.Visited
+		// (a site that is never reached in this caller — dead under the constants a helper was called with — asks nothing)
+		_ = reached
 		if !okSite || x.Undecided != "" {
 			return why + " (call site in " + s.Fn.Name + ")"
 		}
 	}
 	return ""
+}
+
+// c12argOf: ta is (the whole of) argument idx of a call to module function g inside CFG node n.
+func c12argOf(p *an.Prog, info *types.Info, n ast.Node, ta *ast.TypeAssertExpr) (bool, *an.Fn, int) {
+	var g *an.Fn
+	idx, found := -1, false
+	ast.Inspect(n, func(m ast.Node) bool {
+		call, ok := m.(*ast.CallExpr)
+		if !ok || found {
+			return !found
+		}
+		for i, a := range call.Args {
+			if an.Unparen(a) == ast.Expr(ta) {
+				found, idx = true, i
+				g = p.FnByObj[an.Callee(info, call)]
+			}
+		}
+		return !found
+	})
+	return found, g, idx
+}
+
+// c12paramNilChecked: function g compares its parameter idx (a function value) with nil, with a branch that does
+// not return, before it does anything else with it: on every path, the first use of the parameter outside a nil
+// comparison lies where the parameter is known not to be nil.
+func c12paramNilChecked(p *an.Prog, g *an.Fn, idx int) bool {
+	if g.Body == nil || g.Sig == nil || idx >= g.Sig.Params().Len() {
+		return false
+	}
+	param := g.Sig.Params().At(idx)
+	if g.Sig.Variadic() && idx == g.Sig.Params().Len()-1 {
+		return false
+	}
+	info := g.Info()
+	inNilCmp := map[*ast.Ident]bool{}
+	an.InspectOwn(g, func(n ast.Node) bool {
+		if b, ok := n.(*ast.BinaryExpr); ok && (b.Op == token.EQL || b.Op == token.NEQ) {
+			for _, pr := range [][2]ast.Expr{{b.X, b.Y}, {b.Y, b.X}} {
+				if id, ok := an.Unparen(pr[0]).(*ast.Ident); ok && an.ObjOf(info, id) == types.Object(param) {
+					if tv, ok := info.Types[pr[1]]; ok && tv.IsNil() {
+						inNilCmp[id] = true
+					}
+				}
+			}
+		}
+		return true
+	})
+	if len(inNilCmp) == 0 {
+		return false
+	}
+	ok := true
+	x := p.NewExplorer(g, an.Hooks{Use: func(x *an.Explorer, e ast.Expr, st *an.State) {
+		id, isId := an.Unparen(e).(*ast.Ident)
+		if !isId || an.ObjOf(info, id) != types.Object(param) || inNilCmp[id] {
+			return
+		}
+		k, kok := x.Key(id)
+		if !kok || !an.FactIs(st, an.PlainKey(k)+" == nil", false) {
+			ok = false
+		}
+	}})
+	x.Run(nil)
+	return ok && x.Undecided == ""
 }
